@@ -1,14 +1,14 @@
 package main
 
 import (
-	"runtime/debug"
-	"runtime/pprof"
-	"go/types"
 	"flag"
 	"fmt"
+	"go/types"
 	"os"
 	"os/exec"
 	"path/filepath"
+	"runtime/debug"
+	"runtime/pprof"
 	"sort"
 	"strings"
 	"sync"
@@ -151,32 +151,32 @@ func allFunctions(lr *loadResult, extra ...string) map[string]*ssa.Function {
 }
 
 type runConfig struct {
-	repo    string
-	specDir string
-	props   []string
-	funcs   string
-	tier    string
-	timeout int
-	tags    string
-	verbose bool
-	seed    int64
-	prop    string
-	tables  bool
+	repo      string
+	specDir   string
+	props     []string
+	funcs     string
+	tier      string
+	timeout   int
+	tags      string
+	verbose   bool
+	seed      int64
+	prop      string
+	tables    bool
 	propsFile string
 }
 
 type runResult struct {
-	obls      []*Obligation
-	errors    []string
-	funcs     []string
-	engine    *Engine
-	wall      float64
-	lemmas    []*Obligation
-	assumed   []string
-	solverSec float64
-	sel       selection
-	bounded   []*boundedResult
-	fnsByKey  map[string]*ssa.Function
+	obls         []*Obligation
+	errors       []string
+	funcs        []string
+	engine       *Engine
+	wall         float64
+	lemmas       []*Obligation
+	assumed      []string
+	solverSec    float64
+	sel          selection
+	bounded      []*boundedResult
+	fnsByKey     map[string]*ssa.Function
 	uncontracted []string // exported functions of the property's anchor files that carry no contract
 }
 
@@ -395,6 +395,19 @@ func discharge(obls []*Obligation, timeout int, verbose bool) {
 			if o.Timeout > 0 {
 				t = o.Timeout
 			}
+			if o.From != nil {
+				// proof hint of the contract: the facts of the named clauses (plus what they share symbols with
+				// at depth 0) are tried on their own; failing that the obligation goes through the usual stages
+				hs := append([]*Term{}, o.From...)
+				hs = append(hs, bitUFFacts(append(append([]*Term{}, hs...), o.Goal))...)
+				q := &Query{Name: o.Name + ".from", Hyps: hs, Goal: o.Goal, NIA: o.NIA}
+				r := solve(q, 3)
+				if r.Status == "unsat" {
+					r.Backend = "from-hint"
+					o.Result = &r
+					return
+				}
+			}
 			if o.Alt != nil {
 				for _, depth := range []int{0, 1, 99} {
 					sel := relevantHyps(o.Hyps, o.Alt, depth)
@@ -448,6 +461,58 @@ func discharge(obls []*Obligation, timeout int, verbose bool) {
 		}(o)
 	}
 	wg.Wait()
+	// Second chance for undecided obligations (timeout/unknown, never for a refutation): a loaded or slower
+	// machine must not turn a solver timeout into an alarm.  They are re-run two at a time with four times the
+	// budget and every solver started at once.  The number retried is capped, so a change that breaks many
+	// obligations is still reported promptly.
+	var again []*Obligation
+	for _, o := range obls {
+		if o.Kind != "cover" && o.Result != nil && o.Goal != nil && (o.Result.Status == "timeout" || o.Result.Status == "unknown") {
+			again = append(again, o)
+		}
+	}
+	if len(again) > 0 && len(again) <= 8 && os.Getenv("VCGO_NO_RETRY") == "" {
+		sem2 := make(chan struct{}, 2)
+		for _, o := range again {
+			wg.Add(1)
+			go func(o *Obligation) {
+				defer wg.Done()
+				sem2 <- struct{}{}
+				defer func() { <-sem2 }()
+				t := timeout
+				if o.Timeout > 0 {
+					t = o.Timeout
+				}
+				first := *o.Result
+				var qs []*Query
+				if len(o.Hyps) > 40 {
+					for _, depth := range []int{1, 3} {
+						sel := relevantHyps(o.Hyps, o.Goal, depth)
+						hs := append(append([]*Term{}, sel...), bitUFFacts(append(append([]*Term{}, sel...), o.Goal))...)
+						qs = append(qs, &Query{Name: fmt.Sprintf("%s.retry-rel%d", o.Name, depth), Hyps: hs, Goal: o.Goal, NIA: o.NIA})
+					}
+				}
+				hyps := append([]*Term{}, o.Hyps...)
+				hyps = append(hyps, bitUFFacts(append(hyps, o.Goal))...)
+				qs = append(qs, &Query{Name: o.Name + ".retry", Hyps: hyps, Goal: o.Goal, NIA: o.NIA})
+				spent := first.Time
+				for _, q := range qs {
+					q.Eager = true
+					r := solve(q, 4*t)
+					spent += r.Time
+					if r.Status == "unsat" || (r.Status == "sat" && q == qs[len(qs)-1]) {
+						r.Time = spent
+						r.Backend = "retry"
+						o.Result = &r
+						return
+					}
+				}
+				first.Time = spent
+				o.Result = &first
+			}(o)
+		}
+		wg.Wait()
+	}
 }
 
 func (o *Obligation) ok() bool {
